@@ -5,6 +5,17 @@ pid = sys.argv[1]
 tests = sys.argv[2] if len(sys.argv) > 2 else ""
 p = [json.loads(l) for l in open('/verif/properties.jsonl') if json.loads(l)['id'] == pid][0]
 w = "/tmp/mut-%s" % pid.lower()
+import os, glob
+N = int(os.environ.get("MUT_N", "3"))
+NW = {1: "ONE", 2: "TWO", 3: "THREE"}[N]
+prev = []
+for d in sorted(glob.glob('/verif/seeded/%s-*/meta.json' % pid)):
+    try: prev.append(json.load(open(d))['what'][:220])
+    except Exception: pass
+AVOID = ""
+if prev:
+    AVOID = " Earlier rounds of this experiment already used the following changes; do NOT reuse them or close variants (different function, different mechanism please): " + " | ".join(prev) + "."
+
 print(f"""You are a software engineer asked to play "bug author" for a verification experiment on the Rust code base Concordium/concordium-base. You have your own scratch git worktree at {w} (a checkout of the repository; Rust workspace in rust-src/, smart-contract crates under smart-contracts/; build offline with `cargo ... --offline`; use `CARGO_TARGET_DIR={w}-target` for all builds). Work ONLY inside {w} (and {w}-target, {w}-out). Do not look at or touch /verif or /repo.
 
 The property that the code is supposed to satisfy:
@@ -13,10 +24,10 @@ The property that the code is supposed to satisfy:
 Anchored in: {', '.join(p['anchors']['files'])}.
 Mechanisms: {'; '.join(m['name'] + ' (' + m['where'] + ')' for m in p['anchors'].get('mechanism', []))}
 
-Task: produce THREE different, independent changes to the source (each a separate patch against the unmodified worktree) that each BREAK this property while the code still compiles and the existing test suite of the affected crate still passes ({tests}). Note: the tests `aggregate_sig::test::test_verify_aggregate_sig` and `dlog_ed25519::tests::test_ed25519_dlog` are known to fail/time out in the baseline and are irrelevant. Prefer changes that need something specific to manifest - a particular boundary value, an unusual but legal input shape, a multi-step sequence of operations, a particular interleaving, or two cooperating sites that each look fine alone - NOT changes that any ordinary use would expose at once. Realistic slips a developer could make (off-by-one, wrong comparison direction, a dropped check, a wrong field/variable, a swapped order in one rarely used branch) are better than artificial ones. Spread the three changes over different mechanisms/files of the property.
+Task: produce {NW} different, independent changes to the source (each a separate patch against the unmodified worktree) that each BREAK this property while the code still compiles and the existing test suite of the affected crate still passes ({tests}). Note: the tests `aggregate_sig::test::test_verify_aggregate_sig` and `dlog_ed25519::tests::test_ed25519_dlog` are known to fail/time out in the baseline and are irrelevant. Prefer changes that need something specific to manifest - a particular boundary value, an unusual but legal input shape, a multi-step sequence of operations, a particular interleaving, or two cooperating sites that each look fine alone - NOT changes that any ordinary use would expose at once. Realistic slips a developer could make (off-by-one, wrong comparison direction, a dropped check, a wrong field/variable, a swapped order in one rarely used branch) are better than artificial ones. Spread the changes over different mechanisms/files of the property.{AVOID}
 
-For each change i in 1..3 deliver in {w}-out/<i>/:
+For each change i in 1..{N} deliver in {w}-out/<i>/:
   - patch.diff  (output of `git diff` in {w} with only that change applied; then `git checkout -- .` before the next one)
   - demo.rs (or demo.diff): a small test or program that FAILS with the change and PASSES without it, with the exact command to run it
   - meta.json: {{"property":"{pid}","what":"<one sentence>","needs":"<what specific input/condition makes it manifest>","tests_run":"<command and result>","demo_run":"<command>","demo_result":"<with/without>"}}
-Confirm for each: (a) compiles, (b) the existing tests pass with the change, (c) your demo fails with the change and passes without it. Leave the worktree clean (git checkout -- . ; remove any added files) at the end, and delete {w}-target when done to save disk. Report a short summary of the three changes.""")
+Confirm for each: (a) compiles, (b) the existing tests pass with the change, (c) your demo fails with the change and passes without it. Leave the worktree clean (git checkout -- . ; remove any added files) at the end, and delete {w}-target when done to save disk. Report a short summary of the changes.""")
